@@ -743,8 +743,23 @@ def js_skeleton(fn, labels):
     tmps = {}
     last_act = None
     skip_deeper = None
-    pending_tmps = []
-    for raw in body:
+    # a statement that contains a function literal spans several lines: the markers inside the literal belong to it
+    folded = []
+    k = 0
+    while k < len(body):
+        raw = body[k]
+        if re.search(r"function[^(]*\([^)]*\) \{$", raw.strip()):
+            d = len(raw) - len(raw.lstrip("\t"))
+            inner = []
+            j = k + 1
+            while j < len(body) and (len(body[j]) - len(body[j].lstrip("\t")) > d or not body[j].strip()):
+                inner += ["%s(%s," % m for m in _MARK.findall(body[j])]
+                j += 1
+            folded.append((raw, " ".join(inner)))
+        else:
+            folded.append((raw, ""))
+        k += 1
+    for raw, inner_marks in folded:
         depth = len(raw) - len(raw.lstrip("\t"))
         l = raw.strip()
         if not l or l.startswith("/*") and l.endswith("*/"):
@@ -799,7 +814,7 @@ def js_skeleton(fn, labels):
         if l.startswith("var "):
             continue
         td = _TMPDEF.findall(l)
-        marks = _MARK.findall(l)
+        marks = _MARK.findall(l + " " + inner_marks)
         ids = []
         for name, n in marks:
             if name in ("cnd", "cnq"):
